@@ -254,5 +254,5 @@ def replay(ctx, case):
     check_case(ctx, case)
 
 
-SUBS = [Sub("convert", run, replay, quick=300, thorough=6000,
+SUBS = [Sub("convert", run, replay, quick=300, thorough=12000,
             min_per_shard=10)]
